@@ -320,6 +320,12 @@ func init() {
 		return Tuple{timeVal(t), Iface{}}
 	}
 	intrinsics["time.Unix"] = func(e *Engine, a []Value) Value {
+		if sec := a[0].(Int); sec.T != nil {
+			if ns := a[1].(Int); ns.T == nil && ns.V == 0 {
+				// symbolic whole seconds: kept as a term in time.Time's own representation
+				return Struct{mkInt(64, 0), Int{W: 64, T: mk("bvadd", 64, sec.T, bvConst(64, uint64(unixToInternal)))}, (*Value)(nil)}
+			}
+		}
 		return timeVal(time.Unix(concI(e, a[0]), concI(e, a[1])))
 	}
 	intrinsics["(time.Time).Format"] = func(e *Engine, a []Value) Value {
@@ -337,6 +343,9 @@ func init() {
 		intrinsics["(time.Time)."+name] = func(e *Engine, a []Value) Value { return mkInt(64, uint64(f(e.nativeTime(a[0])))) }
 	}
 	intrinsics["(time.Time).Unix"] = func(e *Engine, a []Value) Value {
+		if ext := a[0].(Struct)[1].(Int); ext.T != nil {
+			return Int{W: 64, T: mk("bvsub", 64, ext.T, bvConst(64, uint64(unixToInternal)))}
+		}
 		return mkInt(64, uint64(e.nativeTime(a[0]).Unix()))
 	}
 }
